@@ -150,6 +150,7 @@ func threadRun(L *LState) {
 				lv = LString(fmt.Sprint(rcv))
 			}
 			if parent := L.Parent; parent != nil {
+				L.closeUpvalues(0) // the coroutine is dead: detach every closure from its registers
 				if L.wrapped {
 					L.Push(lv)
 					L.G.CurrentThread = parent
